@@ -659,19 +659,20 @@ class TypeTransformer:
             return data
         if self.no_explicit_cast:
             return t(data)  # noqa
-        if not self.no_data_loss:
-            if data in t.__members__:  # noqa
-                # the value of one member can be the name of another: the value wins (as it does
-                # in the strict modes), so that a member's value always converts back to that member
-                try:
-                    return t(data)  # noqa
-                except ValueError:
+        try:
+            value = data
+            member_type = getattr(t, "_member_type_", None)
+            if member_type and member_type != object:
+                if type(value) != member_type:
+                    value = self(value, member_type)
+            return t(value)  # noqa
+        except Exception:
+            # member names are a lenient fallback only: a name must not shadow another member's value,
+            # otherwise the lenient result differs from the result under no_data_loss / no_explicit_cast
+            if not self.no_data_loss and isinstance(data, str):
+                if data in t.__members__:  # noqa
                     return t.__members__[data]  # noqa
-        member_type = getattr(t, "_member_type_", None)
-        if member_type and member_type != object:
-            if type(data) != member_type:
-                data = self(data, member_type)
-        return t(data)  # noqa
+            raise
 
     @registry.register(io.BytesIO)
     def to_filelike(self, data, t):
